@@ -2173,13 +2173,15 @@ class Node(_protocols.NodeProtocol, _display.PrettyPrintable):
         # very often. This way all mutations can be tracked.
         # If necessary, we can cache the inputs and outputs as tuples.
         self._inputs: tuple[Value | None, ...] = tuple(inputs)
-        # Values belong to their defining nodes. The values list is immutable
-        self._outputs: tuple[Value, ...] = self._create_outputs(num_outputs, outputs)
+        # Build the attributes before claiming the output values, so that a rejected
+        # attribute list does not leave the supplied outputs owned by a half-built node
         if isinstance(attributes, Mapping):
             attributes = tuple(attributes.values())
         self._attributes: _graph_containers.Attributes = _graph_containers.Attributes(
             attributes, owner=self
         )
+        # Values belong to their defining nodes. The values list is immutable
+        self._outputs: tuple[Value, ...] = self._create_outputs(num_outputs, outputs)
         self._overload: str = overload
         # TODO(justinchuby): Potentially support a version range
         self._version: int | None = version
